@@ -413,8 +413,8 @@ fn c14_public_case(fx: &PubFixture, m: usize, rng: &mut Rng, t: &mut Tally) {
 }
 
 pub fn run_c14(ctx: &Ctx) {
-    let n_priv = ctx.tier.pick(112usize, 4_000);
-    let n_pub = ctx.tier.pick(64usize, 2_000);
+    let n_priv = ctx.tier.pick(112usize, 1_600);
+    let n_pub = ctx.tier.pick(64usize, 800);
     ctx.set_rule(&format!(
         "{} vectors of pass-through child proofs for PrivateBatchProver (N in 1..4: length 0..N+1, metadata mixes from the C07 generators incl. dummy-shaped proofs with arbitrary felts, duplicate nullifiers, grouped sums at 2^32-1 / 2^32, non-zero asset with and without padding, tampered proofs) and {} for PublicBatchProver ((M,N) in {{(1,1),(2,1),(2,2),(3,2)}}). Each case builds a fresh prover through its public constructor. \
          Oracle: commit accepts => every documented policy holds AND the real prove() succeeds and the proof verifies under the rebuilt verifier (all accepted commits are proved) AND the proof's public inputs equal the reference aggregate of the committed slots; commit rejects a vector passing every documented policy => the padded batch is unprovable by the reference acceptance predicate. \
@@ -496,7 +496,7 @@ fn c15_configs(ctx: &Ctx) -> Vec<(usize, usize)> {
 }
 
 pub fn run_c15(ctx: &Ctx) {
-    let r_commits = ctx.tier.pick(288usize, 8_000);
+    let r_commits = ctx.tier.pick(288usize, 3_200);
     ctx.set_rule(&format!(
         "{} commits of PrivateBatchProver over pass-through leaves, each on a freshly built prover, cycling the configurations (k,N) in {:?}, plus public-batch commits (k<M); the committed partial witness is read through a cfg-gated read-only accessor. \
          Oracle: multiset of committed slot public inputs == the k supplied proofs + (N-k) copies of the validated template; all 4N preimage limbs form pairwise distinct preimages within and across all commits of the run, no two preimages of one commit are within 2^16 of each other in any limb, and no limb value recurs in the run (independent fresh draws); public batch: supplied inners in the given order followed by templates; \
